@@ -53,3 +53,29 @@ Proof.
   exists (mkFs None None), [([1;2;3;4;5], CBeforeRename); ([7;8], CNone)].
   cbn. split; [discriminate|]. intros x [<-|[<-|[]]]; cbn; discriminate.
 Qed.
+
+(* ---------- sessions ---------- *)
+Section SessionProofs.
+  Variable M : Type.
+  Variable ser : M -> list N.
+  Variable de : list N -> option M.
+  Hypothesis codec : forall m, de (ser m) = Some m.
+
+  (* what the storage holds when it stops is what the next start loads — whatever the session
+     did, look-ups only included *)
+  Theorem session_roundtrip s m0 ops :
+    exists d, f_state (session M ser s m0 ops) = Some d /\ de d = Some (fold_left (sapply M) ops m0).
+  Proof.
+    unfold session. rewrite save_complete. exists (ser (fold_left (sapply M) ops m0)). split; [reflexivity|apply codec].
+  Qed.
+End SessionProofs.
+
+(* skipping the save of a session without write operations loses what its look-ups changed *)
+Theorem session_skip_refuted : exists (ser : N -> list N) (de : list N -> option N),
+  (forall m, de (ser m) = Some m) /\
+  exists s m0 ops, (match f_state (session_skip_unmodified N ser s m0 ops) with
+                    | Some d => de d | None => None end) <> Some (fold_left (sapply N) ops m0).
+Proof.
+  exists (fun m => [m]), (fun d => match d with [m] => Some m | _ => None end). split; [reflexivity|].
+  exists (mkFs (Some [5]) None), 5, [SLookup N (fun m => m + 1)]. cbn. discriminate.
+Qed.
